@@ -609,12 +609,9 @@ func (tree *MutableTree) enableFastStorageAndCommit() error {
 		return err
 	}
 
-	_, latestVersion, err := tree.ndb.getLatestVersion()
-	if err != nil {
-		return err
-	}
-
-	if err = tree.ndb.SetFastStorageVersionToBatch(latestVersion); err != nil {
+	// the index describes the version it was built from, which is not the
+	// latest one when an older version has been loaded.
+	if err = tree.ndb.SetFastStorageVersionToBatch(tree.version); err != nil {
 		return err
 	}
 
